@@ -232,3 +232,53 @@ def depends_on(du: DefUse, expr: ast.AST, at: int, sources: Set[str],
                                               through_attrs):
                                     return True
     return False
+
+
+def expand(du: DefUse, nid: int, expr: ast.AST, depth: int = 4,
+           stop_names: Optional[Set[str]] = None) -> ast.AST:
+    """Copy of `expr` in which local names with a unique, plain reaching
+    definition are replaced by their defining expression (hoisting a
+    sub-expression into a temporary must not change a verdict)."""
+    import copy
+
+    class T(ast.NodeTransformer):
+        def __init__(self, nid, depth):
+            self.nid, self.depth = nid, depth
+
+        def visit_Name(self, node):
+            if not isinstance(node.ctx, ast.Load) or self.depth <= 0:
+                return node
+            if stop_names and node.id in stop_names:
+                return node
+            d = du.unique_value(self.nid, node.id)
+            if d is None or d.value is None or d.sel or \
+                    isinstance(d.value, (ast.FunctionDef, ast.ClassDef, ast.Lambda)):
+                return node
+            if d.node == self.nid:
+                return node
+            sub = copy.deepcopy(d.value)
+            return T(d.node, self.depth - 1).visit(sub)
+
+        def visit_Lambda(self, node):
+            return node
+
+    return T(nid, depth).visit(copy.deepcopy(expr))
+
+
+def form_at(du: DefUse, nid: int, e: ast.AST, leaf, depth: int = 5):
+    """Polynomial form of `e` evaluated at CFG node `nid`.  `leaf(x)` maps role
+    names / understood calls to forms (tried first); remaining local names are
+    followed through their unique plain reaching definition."""
+    from .forms import eval_form
+
+    def res(x):
+        r = leaf(x)
+        if r is not None:
+            return r
+        if isinstance(x, ast.Name) and isinstance(x.ctx, ast.Load) and depth > 0:
+            d = du.unique_value(nid, x.id)
+            if d is not None and d.value is not None and not d.sel and d.node != nid \
+                    and not isinstance(d.value, (ast.FunctionDef, ast.ClassDef, ast.Lambda)):
+                return form_at(du, d.node, d.value, leaf, depth - 1)
+        return None
+    return eval_form(e, res)
